@@ -20,4 +20,6 @@ def check(ctx, rep):
     # no state outlives a call: no shared write reachable from the entry points of this property
     from ..rules import eff as _eff
     _eff.eff_1(ctx, rep, only=[('parso/python/tokenize.py', 'tokenize'), ('parso/python/tokenize.py', 'tokenize_lines'), ('parso/grammar.py', 'PythonGrammar._tokenize_lines'), ('parso/grammar.py', 'PythonGrammar._tokenize')], minimum=5)
+    from ..rules import normr as _n11
+    _n11.norm_11(ctx, rep)      # prefix part columns: first-line state does not leak into later lines
     rep.note('Not decided: true positions.')
